@@ -322,7 +322,7 @@ fn hostile_case(sink: &mut Sink, idx: u64, kind: &str, hostile: &Prog, quiet: &P
         let out = run_stack(&h, &sp);
         let _ = tx.send(out);
     });
-    let out = rx.recv_timeout(std::time::Duration::from_secs(5)).ok();
+    let out = rx.recv_timeout(std::time::Duration::from_secs(20)).ok();
     sink.bump(match &out {
         None => "hostile:callback-never-returned",
         Some(o) if o.poisoned => "hostile:storage-poisoned",
